@@ -39,6 +39,7 @@ func runC05(c *Ctx) {
 	r.Doc("P3", "the second phase hands out the unspent allotment of the round, measured before anything changes the map", 2)
 	r.Doc("P5", "(= B4) the number of vacant handlers is HandlersQuantity - sum(actual): handlers whose release was not read yet are not vacant", 2)
 	r.Doc("P6", "(= B13) HandlersQuantity reaches the inner discipline as configured (the shares are shares of the handlers that exist)", 2)
+	r.Doc("P8", "(= B3) the allotment map is written only by its reset, the checked divisions, the top-up and the per-item decrement", 12)
 	r.Doc("P7", "(= N2 no-proceed) the round start answers 'cannot proceed' only when no handler is vacant", 2)
 	r.Doc("P4", "the pass over an input ends only when its allotment is spent, nothing is buffered / two ticks passed, it is closed, or a stop fired (so an unspent allotment means 'no data')", 4)
 	for _, p := range []*Prog{c.V1, c.V2} {
@@ -75,6 +76,15 @@ func runC05(c *Ctx) {
 		// disciplines hand HandlersQuantity to the inner discipline as given (they run exactly that
 		// many handlers, so shares of any other number are exceeded or never reached)
 		checkCapacityUnmodified(c, p, "P6")
+		// P8 (= B3): the allotment of a round is what the top-up or the checked divisions put there
+		// from the current counters: any other writer (a remembered allotment copied back, say) gives
+		// handlers to a priority because of what was the case in an earlier round, and a priority ends
+		// above its share while another stays below
+		subw := &Ctx{V1: c.V1, V2: c.V2, Tier: c.Tier, R: NewReport("tmp", c.Tier)}
+		checkB3(subw, pr)
+		for _, o := range subw.R.Obls {
+			c.R.Check(o.OK, "P8", strings.TrimPrefix(o.Key, "B3@"), o.Site, o.Detail, o.Detail)
+		}
 		// P7 (= N2 no-proceed): the round-start calculation gives up on its own account only when no
 		// handler is vacant: otherwise, with nothing more to release, vacant handlers stay unused and a
 		// priority stays below its share
